@@ -100,6 +100,14 @@ def handleOpts (toks : List String) : Option String :=
     | .ok r => some s!"ok {joinWith "," (r.map fun e => showHexE e.1 ++ ":" ++ showHexE e.2)}"
     | .refused => some "refused"
     | .panic => some "panic"
+  -- meta-map <strings> <files> : the metadata map compress_cmd builds (pairs as in opts-meta, `-` = none)
+  | ["meta-map", strings, files] => do
+    let parse (t : String) : Option (List (Bytes × Bytes)) :=
+      if t = "-" then some [] else (t.splitOn ",").mapM fun kv => match kv.splitOn ":" with
+        | [k, v] => do some (← textBytes k, ← textBytes v)
+        | _ => none
+    let r := metadataOf (← parse strings) (← parse files)
+    some s!"map={if r.isEmpty then "-" else joinWith "," (r.map fun e => showHexE e.1 ++ ":" ++ showHexE e.2)}"
   -- chunker-alloc <cfg> : the largest allocation request of `Config::new_chunker`
   | ["chunker-alloc", "R", b, mn, mx, w] => do
     some s!"max={(chunkerAllocations (.rollsum ⟨← parseNat b, ← parseNat mn, ← parseNat mx, ← parseNat w⟩)).foldl max 0}"
